@@ -29,6 +29,13 @@ package tmi
 
 // ---- view version bookkeeping (C11) and position updates (C04) ----
 
+// smAt: the state machine's round entrance is exactly (h, r); smBefore: it is strictly before (h, r).
+// The outgoing view of the state machine is only ever replaced by a view of the round the state machine is in
+// (a pending final view of an earlier round must not be overwritten before it is delivered), and a state machine
+// that is behind is told through the jump-ahead view.
+//@ define smAt(s, h, r) = s.StateMachineViewManager.roundEntrance.H == h && s.StateMachineViewManager.roundEntrance.R == r
+//@ define smBefore(s, h, r) = s.StateMachineViewManager.roundEntrance.H < h || (s.StateMachineViewManager.roundEntrance.H == h && s.StateMachineViewManager.roundEntrance.R < r)
+
 //@ func kState.MarkVotingViewUpdated
 //@   property C11 C04
 //@   requires s.Voting.Version < MAXU32
@@ -39,6 +46,8 @@ package tmi
 //@   ensures sm-synced: old(s.StateMachineViewManager.roundEntrance.H) == s.Voting.Height && old(s.StateMachineViewManager.roundEntrance.R) == s.Voting.Round ==>
 //@       s.StateMachineViewManager.outgoingView.Version == s.Voting.Version &&
 //@       s.StateMachineViewManager.outgoingView.Height == s.Voting.Height && s.StateMachineViewManager.outgoingView.Round == s.Voting.Round
+//@   ensures sm-other-round-view-kept: !smAt(s, s.Voting.Height, s.Voting.Round) ==>
+//@       s.StateMachineViewManager.outgoingView == old(s.StateMachineViewManager.outgoingView)
 //@   modifies s.Voting.Version, s.GossipViewManager.Voting.VRV, s.StateMachineViewManager.outgoingView
 
 //@ func kState.MarkCommittingViewUpdated
@@ -48,6 +57,18 @@ package tmi
 //@   ensures gossip-copy: s.GossipViewManager.Committing.VRV.Version == s.Committing.Version &&
 //@       s.GossipViewManager.Committing.VRV.Height == s.Committing.Height && s.GossipViewManager.Committing.VRV.Round == s.Committing.Round
 //@   ensures position-kept: s.Committing.Height == old(s.Committing.Height) && s.Committing.Round == old(s.Committing.Round)
+//@   ensures sm-synced: smAt(s, s.Committing.Height, s.Committing.Round) ==>
+//@       s.StateMachineViewManager.outgoingView.Version == s.Committing.Version &&
+//@       s.StateMachineViewManager.outgoingView.Height == s.Committing.Height && s.StateMachineViewManager.outgoingView.Round == s.Committing.Round
+//@   ensures sm-other-round-view-kept: !smAt(s, s.Committing.Height, s.Committing.Round) ==>
+//@       s.StateMachineViewManager.outgoingView == old(s.StateMachineViewManager.outgoingView)
+//@   ensures sm-behind-gets-jump-ahead: smBefore(s, s.Committing.Height, s.Committing.Round) ==>
+//@       s.StateMachineViewManager.jumpAhead != nil && s.StateMachineViewManager.jumpAhead.Height == s.Committing.Height &&
+//@       s.StateMachineViewManager.jumpAhead.Round == s.Committing.Round && s.StateMachineViewManager.jumpAhead.Version == s.Committing.Version
+//@   ensures sm-not-behind-jump-kept: !smBefore(s, s.Committing.Height, s.Committing.Round) ==>
+//@       s.StateMachineViewManager.jumpAhead == old(s.StateMachineViewManager.jumpAhead)
+//@   ensures sm-entrance-kept: s.StateMachineViewManager.roundEntrance == old(s.StateMachineViewManager.roundEntrance) &&
+//@       s.StateMachineViewManager.lastSentVersion == old(s.StateMachineViewManager.lastSentVersion)
 //@   modifies s.Committing.Version, s.GossipViewManager.Committing.VRV, s.StateMachineViewManager.outgoingView, s.StateMachineViewManager.jumpAhead
 
 //@ func kState.MarkNextRoundViewUpdated
